@@ -7,7 +7,7 @@ hook_commits = [l.split()[0] for l in hooks if "verif hook (guard IMB_VERIF)" in
 
 CLAIMED = {
  "C05": ("model_checking",
-         "TLC explores the level-A specification (spec/ImbMgr.tla: ring, single-job and burst API, error codes, re-init) exhaustively for a small ring and checks order/exactly-once/accounting/flush/offered-slot/full-queue invariants; every recorded execution of the real library at the real ring size is validated event by event against the same actions (spec/Trace_ImbMgr.tla), the model predicting ring indexes, hand-back order and statuses after every call.",
+         "TLC explores the level-A specification (spec/ImbMgr.tla: ring, single-job and burst API, error codes, re-init) exhaustively for a small ring and checks order/exactly-once/accounting/flush/offered-slot/full-queue invariants; every recorded execution of the real library at the real ring size is validated event by event against the same actions (spec/Trace_ImbMgr.tla), the model predicting ring indexes, hand-back order and statuses after every call. A directed profile fills the 256-slot ring through the single-job API (one parked job, 254/255 finished jobs behind it) and submits through the full-ring branch, checked and no-check.",
          "bounded exhaustive model (small ring), conformance by trace validation of random/model-shaped schedules at N=256; the harness's report of which jobs finished inside a call is trusted",
          "TLA+ model checking (TLC) + trace validation of recorded executions", "5 C05"),
  "C04": ("model_checking",
@@ -15,7 +15,7 @@ CLAIMED = {
          "run-alone result of the same variant is the reference; exhaustive model bounds as for C05; level-B strict disagreement is model drift, not a violation",
          "TLA+ trace validation with run-alone differential oracle", "5 C04"),
  "C14": ("model_checking",
-         "The level-A actions fix the error code after every call (0 on success, the call's own code on failure, mirrored process-wide) and the final status of every handed-back job; recorded executions are validated against that, together with a field-by-field descriptor comparison for every returned job and a sweep of imb_get_strerror over the integer classes.",
+         "The level-A actions fix the error code after every call (0 on success, the call's own code on failure, mirrored process-wide) and the final status of every handed-back job; recorded executions are validated against that, together with a field-by-field descriptor comparison for every returned job and a sweep of imb_get_strerror over the integer classes. Failing manager-level calls (action BadCall of the specification: NULL burst array) are interleaved between IMB_GET_NEXT_JOB and the submit; the submit must reset the code whichever entry point is used.",
          "descriptor fields named by the property are compared; length fields are informational (the CMAC path rewrites msg_len_to_hash_in_bits)",
          "TLA+ trace validation (errno/status per call) + descriptor snapshots", "5 C14"),
  "C06": ("model_checking",
@@ -23,7 +23,7 @@ CLAIMED = {
          "that the single-algorithm jobs equal the published algorithms is C01/C02; CUSTOM, PON and SGL suites are checked for acceptance/suite ids only",
          "exhaustive enumeration in TLC + trace validation of the per-cell walk (stage hook H1)", "5 C06"),
  "C07": ("exploration",
-         "Every caller object of every executed job ends (or starts) flush against an inaccessible page; single-job sweep over all catalogue suites x every message length 0..N x both placements x variants plus random offsets/tag/AAD/IV lengths, with source snapshot, guard bytes and in-place twin; multi-job schedules run in the same arena and are validated by the trace specification with the memory conjuncts on.",
+         "Every caller object of every executed job ends (or starts) flush against an inaccessible page; single-job sweep over all catalogue suites x every message length 0..N x both placements x variants plus random offsets/tag/AAD/IV lengths, with source snapshot, guard bytes and in-place twin; multi-job schedules run in the same arena and are validated by the trace specification with the memory conjuncts on. The direct calls (hash / CRC / HEC one-shots, ZUC / SNOW3G / KASUMI 1..n-buffer calls, GMAC streaming, QUIC helpers, one-block CFB) are walked with every object end-flush and start-flush against inaccessible pages (spec/Trace_Entry.tla with JudgeSame = FALSE: a fault inside a direct call has no action).",
          "over-reads that stay inside the last page of an object are invisible to the MMU; scheduler-level ranges are modelled in the level-B lane model",
          "guard-page exploration driven by the catalogue; TLA+ trace validation for the multi-job part", "5 C07"),
  "C08": ("model_checking",
@@ -47,7 +47,7 @@ CLAIMED = {
          "single violations only; direct-API argument rules not yet in the catalogue",
          "TLA+ catalogue enumeration + one implementation test per model case", "5 C12"),
  "C15": ("model_checking",
-         "InitMgr(m) is an action of ImbMgr.tla enabled in every state, so TLC's exhaustive exploration re-initialises after every prefix of the small-ring histories; on the real library random histories are cut at a random call, the manager is re-initialised in place (all old/new variant pairs its flags allow), the trace specification requires the pristine empty state, dropped jobs' buffers must never be written again, later jobs must equal their run-alone result, and the continuation must be event-for-event identical (returns, statuses, ring indexes, output digests) to the same continuation on a freshly allocated manager.",
+         "InitMgr(m) is an action of ImbMgr.tla enabled in every state, so TLC's exhaustive exploration re-initialises after every prefix of the small-ring histories; on the real library random histories are cut at a random call, the manager is re-initialised in place (all old/new variant pairs its flags allow), the trace specification requires the pristine empty state, dropped jobs' buffers must never be written again, later jobs must equal their run-alone result, and the continuation must be event-for-event identical (returns, statuses, ring indexes, output digests) to the same continuation on a freshly allocated manager. The directed probe is a sweep: every (out-of-order family, variant) with the number of jobs in flight at the re-initialisation cycling below, at and above the lane counts.",
          "old and new variant share the allocation-time flags; the fresh-manager twin uses the same seeds",
          "TLA+ model checking + trace validation with a lock-step fresh-manager twin", "5 C15"),
  "C16": ("fault_enumeration",
@@ -75,12 +75,12 @@ CLAIMED = {
          "KASUMI/SNOW3G schedules and 3GPP IV generators only through jobs without independent reference",
          "differential testing against from-the-standard key material (exploration)", "5 C11"),
  "C09": ("model_checking",
-         "Same work item through every entry point: synchronous cipher/hash/AEAD bursts (sizes below/at/above every lane count, distinct data, unequal lengths) and direct functions (GCM one-shot, GHASH, SHA, ZUC/SNOW3G/KASUMI 1..N buffer, CRCs, single-block CFB) against the job API, judged by spec/Trace_Entry.tla; asynchronous burst and no-check submit inside mixed schedules against the checked single-job call, judged by Trace_ImbMgr (run-alone oracle conjunct). The interaction of synchronous bursts with parked asynchronous jobs is a recorded known finding.",
-         "QUIC helpers, HEC, SHA one-block and fixed-arity wireless calls not covered; known finding KF-2",
+         "Same work item through every entry point: synchronous cipher/hash/AEAD bursts (sizes below/at/above every lane count, distinct data, unequal lengths) and direct functions (GCM one-shot, GMAC streaming, GHASH, SHA one-shot and one-block vs OpenSSL transforms, ZUC-EEA3/EIA3, SNOW3G (incl. 2/4/8 and multi-key), KASUMI (incl. 2/3/4 and bit) 1..N-buffer calls in structured length regimes, CRCs, HEC vs a bit-serial reference and vs the PON job, single-block CFB, QUIC helpers) against the job API, judged by spec/Trace_Entry.tla; asynchronous burst and no-check submit inside mixed schedules against the checked single-job call, judged by Trace_ImbMgr (run-alone oracle conjunct). The interaction of synchronous bursts with parked asynchronous jobs is a recorded known finding.",
+         "direct calls of more than six arguments are not register-checked (C18 judges the others); known finding KF-2",
          "TLA+ trace validation of cross-entry-point differential runs", "5 C09"),
  "C13": ("exploration",
-         "Trampoline scrubs registers/dead stack before and dumps them after every call; in every quiescent state (established by the ring model during trace validation) registers, dead stack and the whole manager block are searched for 8-byte windows of keys, derived key material and plaintext (hash-only messages included, as in the library's own safe check) of the jobs completed since the last quiescent state; the residue counts are conjuncts of the trace specification; a hit must repeat with fresh secrets. Sensitivity shown by a SAFE_DATA=OFF build (hundreds of hits).",
-         "key-preparation helpers only via consuming jobs; low-entropy secrets not searched; residues shorter than 8 bytes are below the scanner's resolution",
+         "Trampoline scrubs registers/dead stack before and dumps them after every call; in every quiescent state (established by the ring model during trace validation) registers, dead stack and the whole manager block are searched for 8-byte windows of keys, derived key material and plaintext (hash-only messages included, as in the library's own safe check) of the jobs completed since the last quiescent state; the residue counts are conjuncts of the trace specification; a hit must repeat with fresh secrets. Key-preparation helpers and nine direct cipher / authentication calls are scanned at their own return (spec/Trace_KeyRes.tla). Key-dependence differential (spec/Trace_KeyDiff.tla): every keyed kind in four schedule shapes runs twice with different keys on a manager at the same address with identical messages and buffer addresses; once all jobs are handed back, manager storage, registers and dead stack must not differ outside public outputs and the benign chaining slots - this finds residue derived from the key (cipher state, key stream) that matches no byte pattern of the key. Sensitivity shown by a SAFE_DATA=OFF build (hundreds of hits).",
+         "low-entropy secrets not searched; residues shorter than 8 bytes are below the scanner's resolution; the key-dependence differential treats chaining slots holding cipher text and digests of cipher text as benign (set Benign of spec/Trace_KeyDiff.tla)",
          "register/stack/manager residue scan in model-established quiescent states", "5 C13"),
 }
 
